@@ -24,9 +24,9 @@ import vlib
 WILD = {"ArgUseAfterFree", "KeywordFreesLit", "UndefFreesHeldBody"}
 SECTION8 = ["PendingReuse", "PaintBody", "MacroequalSpace"]
 
-QUICK = dict(ref=["peek", "t0", "redef", "redef2", "qp", "q3s", "q5s"], dev=["sec8", "t0", "redef", "redef2", "qp", "q1s", "q2s", "q3s", "q4s", "q5s"],
+QUICK = dict(ref=["peek", "t0", "redef", "redef2", "qp", "qh", "q3s", "q5s"], dev=["sec8", "t0", "redef", "redef2", "qp", "qh", "q1s", "q2s", "q3s", "q4s", "q5s"],
              simE=(6, 150), simC=(4, 120), audit=4000)
-THOROUGH = dict(ref=["peek2", "t0", "redef", "redef2", "qp", "q1", "q2", "q3", "q4", "q5s"], dev=["sec8", "t0", "redef", "redef2", "qp", "q1", "q2", "q3", "q4", "q5s"],
+THOROUGH = dict(ref=["peek2", "t0", "redef", "redef2", "qp", "qh", "q1", "q2", "q3", "q4", "q5s"], dev=["sec8", "t0", "redef", "redef2", "qp", "qh", "q1", "q2", "q3", "q4", "q5s"],
                 simE=(12, 600), simC=(8, 400), audit=30000)
 
 
